@@ -373,8 +373,10 @@ def _prune(root, keep, protect):
     """disk hygiene: keep only the most recent cached runs"""
     try:
         ds = sorted((os.path.join(root, n) for n in os.listdir(root)), key=os.path.getmtime, reverse=True)
+        now = time.time()
         for old in ds[keep:]:
-            if old != protect:
+            # never touch a run another concurrent check may still be reading
+            if old != protect and now - os.path.getmtime(old) > 2 * 3600:
                 shutil.rmtree(old, ignore_errors=True)
     except OSError:
         pass
